@@ -857,6 +857,14 @@ macro_rules! rel_vec {
                 for (lo, hi) in [(l * 0.5, l * 2.0), (l * 1.5, l * 3.0), (l * 0.1, l * 0.6), (l, l), (0.0 as $S, l * 0.25)] {
                     $o.emit(json!({"k": "rel", "op": "clamp_len", "f": $fm, "ty": ty, "sp": "clamp_length", "a": wv(&a), "min": w(lo), "max": w(hi), "got": wv(&a.clamp_length(lo, hi))}));
                 }
+                // magnitudes whose product with the bound leaves the range although operand and result are representable
+                if is32 {
+                    let (hv, tv) = (a * (2.0 as $S).powi(35), a * (2.0 as $S).powi(-40));
+                    let (hb, tb) = ((2.0 as $S).powi(100), (2.0 as $S).powi(-100));
+                    $o.emit(json!({"k": "rel", "op": "clamp_len", "f": $fm, "ty": ty, "sp": "clamp_length_min (huge)", "a": wv(&hv), "min": w(hb), "max": w((2.0 as $S).powi(120)), "got": wv(&hv.clamp_length_min(hb))}));
+                    $o.emit(json!({"k": "rel", "op": "clamp_len", "f": $fm, "ty": ty, "sp": "clamp_length_max (tiny)", "a": wv(&tv), "min": w(0.0), "max": w(tb), "got": wv(&tv.clamp_length_max(tb))}));
+                    $o.emit(json!({"k": "rel", "op": "clamp_len", "f": $fm, "ty": ty, "sp": "clamp_length (huge)", "a": wv(&hv), "min": w(hb), "max": w(hb * 4.0), "got": wv(&hv.clamp_length(hb, hb * 4.0))}));
+                }
                 let big: $S = (2.0 as $S).powi(60);
                 $o.emit(json!({"k": "rel", "op": "clamp_len", "f": $fm, "ty": ty, "sp": "clamp_length_max", "a": wv(&a), "min": w(0.0), "max": w(l * 0.5), "got": wv(&a.clamp_length_max(l * 0.5))}));
                 $o.emit(json!({"k": "rel", "op": "clamp_len", "f": $fm, "ty": ty, "sp": "clamp_length_max (inside)", "a": wv(&a), "min": w(0.0), "max": w(l * 2.0), "got": wv(&a.clamp_length_max(l * 2.0))}));
@@ -981,6 +989,15 @@ macro_rules! rel_quat {
             if $r.below(3) == 0 { q1 = -q1; }
             let rs: Vec<Value> = (0..=8).map(|j| wq(&q0.slerp(q1, j as $S / 8.0))).collect();
             $o.emit(json!({"k": "rel", "op": "slerp8", "f": $fm, "ty": ty, "q0": wq(&q0), "q1": wq(&q1), "r": rs}));
+            // extrapolation to integer parameters (both signs, up to 12 steps): the arguments of the sines leave [-pi, pi]
+            {
+                let q1p = if q0.dot(q1) < 0.0 { -q1 } else { q1 };
+                if q0.dot(q1p) > 0.02 {
+                    let ks: Vec<i64> = vec![-11, -7, -3, -2, -1, 2, 3, 5, 8, 12];
+                    let rk: Vec<Value> = ks.iter().map(|k| wq(&q0.slerp(q1p, *k as $S))).collect();
+                    $o.emit(json!({"k": "rel", "op": "slerp_int", "f": $fm, "ty": ty, "q0": wq(&q0), "q1": wq(&q1p), "ks": ks, "r": rk}));
+                }
+            }
             // unnormalised inputs with a raw random quaternion
             let raw = { let l: Vec<$S> = (0..4).map(|_| <$S>::from_bits(rnd_mod($r, is32) as _)).collect(); $Q::from_slice(&l) };
             if raw.length_squared() > 0.0 && (raw.length_squared() as f64) > 1e-30 && (raw.length_squared() as f64) < 1e30 {
@@ -1065,7 +1082,7 @@ macro_rules! rel_cam {
             }
         }
         // ---- projections: tan(fov/2) = 2^tj, any aspect in [1e-2, 1e2], far/near up to 2^20
-        let tj: i32 = $r.below(5) as i32 - 2;
+        let tj: i32 = $r.below(15) as i32 - 7;           // tan(fov/2) = 2^-7 .. 2^7: fov from 0.016 to pi - 0.016
         let t = (2.0 as $S).powi(tj);
         let fov = 2.0 * t.atan();
         let aspect = ((2.0f64).powf(unit_f64($r) * 13.0 - 6.5)) as $S;
